@@ -130,6 +130,10 @@ func importSnapshotToDatastoreWithTestingPowerTableFrequency(ctx context.Context
 	}
 	var latestCert *certs.FinalityCertificate
 	ptm := certs.PowerTableArrayToMap(header.InitialPowerTable)
+	ptCid, err := certs.MakePowerTableCID(header.InitialPowerTable)
+	if err != nil {
+		return fmt.Errorf("failed to make initial power table CID: %w", err)
+	}
 	for i := header.FirstInstance; ; i += 1 {
 		certBytes, err := readSnapshotBlockBytes(snapshot)
 		if err == io.EOF {
@@ -158,6 +162,14 @@ func importSnapshotToDatastoreWithTestingPowerTableFrequency(ctx context.Context
 
 		if ptm, err = certs.ApplyPowerTableDiffsToMap(ptm, cert.PowerTableDelta); err != nil {
 			return err
+		}
+		if len(cert.PowerTableDelta) > 0 {
+			if ptCid, err = certs.MakePowerTableCID(certs.PowerTableMapToArray(ptm)); err != nil {
+				return err
+			}
+		}
+		if ptCid != cert.SupplementalData.PowerTable {
+			return fmt.Errorf("new power table differs from expected power table at instance %d: %s != %s", cert.GPBFTInstance, ptCid, cert.SupplementalData.PowerTable)
 		}
 
 		if (cert.GPBFTInstance+1)%cs.powerTableFrequency == 0 {
